@@ -100,6 +100,9 @@ struct Violation
   std::string oracle, detail;
 };
 [[noreturn]] void fail(const std::string& oracle, const char* fmt, ...) __attribute__((format(printf, 2, 3)));
+// like fail(), but if the oracle is listed as a *known* finding (the driver passes the list from known_findings.json
+// with --known-oracles) the occurrence is recorded and the run continues, so that the rest of the run is still checked
+void fail_soft(const std::string& oracle, const char* fmt, ...) __attribute__((format(printf, 2, 3)));
 // for diagnostics that must never be a verdict
 void diag(const std::string& what, const char* fmt, ...) __attribute__((format(printf, 2, 3)));
 
@@ -117,7 +120,8 @@ struct Result
   std::string cls = "fault_free"; // run class
   uint64_t hash = 0;
   uint64_t sched_hash = 0;
-  std::map<std::string, long> probes, faults, diags;
+  std::map<std::string, long> probes, faults, diags, known_hits;
+  std::string known_detail;
   long ops = 0, switches = 0, yields = 0;
   double sim_s = 0;
   bool nontrivial = false;
